@@ -86,7 +86,7 @@ CLAIMS = {
    technique="TLA+ layout arithmetic over enumerated message shapes (Wire.tla) + independent codec + real decoder/encoder round trips judged by observer spec"),
  "C19": dict(
    level=("model_checking", "Server.tla models the gossip loop seen from outside (scripted transport, command channel, state mutex, termination watcher) with one action per script event and states C19 as TLC-checked properties (send errors harmless, a live loop keeps heartbeating and answering, fatal receive error / panic / shutdown end the loop and are reported, a dead loop does nothing). TLC enumerates EVERY script of up to 4 (quick; 41 370 scripts) / 5 (thorough) events over 14 event kinds including each event while the user holds the state mutex; every script is run against the real spawn_chitchat loop on a scripted public Transport/Socket under the paused clock and the observed per-event effects are compared; differences are judged by ObserveServer.tla. The real UdpTransport is exercised on loopback with garbage datagrams up to 65 507 bytes and an unreachable seed, then a shutdown.", "6 (C19)"),
-   note="oversized sends are injected as Socket::send errors on the scripted transport (the kernel's refusal cannot be provoked through the public API); scripts up to 12 events are not exhaustive (state-graph argument: the model state after any script is one of 2 955 states all of which are reached within 4 events); the UDP part is real-time",
+   note="oversized sends are injected as Socket::send errors on the scripted transport (the kernel's refusal cannot be provoked through the public API); scripts longer than the bound (up to the property's 12 events) are not enumerated: the model's control state (running, watcher value, pending send failures, armed panic) takes all its values within 3 events, longer scripts only repeat (control state, event) pairs; the UDP part is real-time",
    technique="TLA+ exhaustive script enumeration (Server.tla) + replay on the real server loop with a scripted transport + observer spec; loopback UDP driver"),
 }
 PENDING = "specification module for this property not built yet in this revision (see DESIGN.md section 10 build order)"
